@@ -73,7 +73,9 @@ def self_attrs_for(params: dict) -> dict:
     """Parameter binding -> abstract attribute values for the interpreter side."""
     out: dict = {}
     for k, v in params.items():
-        if k == "expression":
+        if k == "_delegate":
+            out[v] = ChildRef(f"self.{v}", 0)
+        elif k == "expression":
             out[k] = ChildRef("self.expression", 0)
         elif k == "expressions":
             out[k] = AList(tuple(ChildRef(f"self.expressions[{i}]", i) for i in range(len(v))))
@@ -186,7 +188,7 @@ class _SkeletonSyntax(Exception):
 def _variant(params: dict, entry: dict) -> str:
     ps = []
     for k, v in params.items():
-        if k == "expression":
+        if k in ("expression", "_delegate"):
             continue
         if k == "expressions":
             ps.append(f"n={len(v)}")
